@@ -184,7 +184,7 @@ def _sigma_rel(case, model_res):
     vals = None
     for a in (args[1], args[2]):
         if a[0] == "L" and a[1] and all(v[0] in ("I", "F", "B") for v in a[1]):
-            vals = [float(v[1]) for v in a[1]]
+            vals = [v[1] for v in a[1]]      # exact Python numbers (ints may exceed the range of a double)
             break
     if vals is None or len(set(vals)) == len(vals):
         return REL
@@ -213,7 +213,7 @@ def _tm_tie_mu_allow(case, t, j):
         vals = None
         for a, sgn in ((args[1], 1.0), (args[2], -1.0)):
             if a[0] == "L" and a[1] and all(v[0] in ("I", "F", "B") for v in a[1]):
-                vals = [sgn * float(v[1]) for v in a[1]]
+                vals = [(v[1] if sgn > 0 else -v[1]) for v in a[1]]
                 break
         if vals is None:
             return 0.0
